@@ -189,8 +189,8 @@ static void do_call(int oid, std::string const& fn, int a, int b)
   }
   catch (Fatal const&) { H::emit("V fatal"); }
   catch (SeThrow const& e) { H::emit("V exc S %d %d", e.id, e.idx); }
-  catch (ThrowInt const& e) { H::emit("V exc I %d", e.id); }
-  catch (ThrowStd const& e) { H::emit("V exc P %d %s", e.id, H::esc(e.what()).c_str()); }
+  catch (ThrowInt const& e) { H::emit("V exc I %d %d", e.id, e.arg); }
+  catch (ThrowStd const& e) { H::emit("V exc P %d %s %d", e.id, H::esc(e.what()).c_str(), e.arg); }
   catch (std::exception const& e) { H::emit("V exc E %s", H::esc(e.what()).c_str()); }
   catch (...) { H::emit("V exc U"); }
 }
@@ -356,6 +356,16 @@ int main()
       Obj o = it->second;
       g_objs.erase(it);
       delete o.m; delete o.n; delete o.wm; delete o.wp;
+    }
+    else if (op == "rmobjx")
+    {
+      // the object is destroyed during stack unwinding (a local going out of scope by exception)
+      auto it = g_objs.find(I(1));
+      if (it == g_objs.end()) bad("rmobjx", line);
+      Obj o = it->second;
+      g_objs.erase(it);
+      struct Guard { Obj* o; ~Guard() { delete o->m; delete o->n; delete o->wm; delete o->wp; } };
+      try { Guard g{&o}; throw 43; } catch (int) {}
     }
     else if (op == "seq") { g_seqs[I(1)] = std::make_unique<trompeloeil::sequence>(); }
     else if (op == "rmseq") { if (!g_seqs.erase(I(1))) bad("rmseq", line); }
